@@ -5,6 +5,7 @@
      hits <id,id,…|->    → the ids of that engine answer a lexical search path can report
      vhits <id,id,…|->   → the ids of that vector-index answer `vec_search_with_embedding` can report
      inactive            → ids of the frames the committed table marks Superseded / Deleted
+     replay f=<n|-> ts=<int|->  → the candidate ids of a time-travel search (`get_replay_frame_ids`)
    (`hits` / `vhits` / `timeline` use the variant the current source tree has: Gen/C08.lean flags);
    every other request goes to `Mv.Core.drvStep` unchanged. -/
 import MvModel.CoreDrv
@@ -21,6 +22,9 @@ def c08Step (m : Mem) (ws : List String) : Mem × String :=
   | ["hits", ans] => (m, showNats (codeSearchHits m.frames (parseIds ans)))
   | ["vhits", ans] => (m, showNats (codeVecHits m.frames (parseIds ans)))
   | ["inactive"] => (m, showNats (inactiveIds m.frames))
+  | "replay" :: rest =>
+    let kv := kvs rest
+    (m, showNats (replayIds m.frames ((getS kv "f").bind (·.toNat?)) (getI kv "ts")))
   | _ => drvStep m ws
 
 def main : IO Unit := Mv.runDriver Mem.create c08Step
